@@ -18,10 +18,18 @@ from onnx import TensorProto, helper, numpy_helper
 OPSET = 20
 LOCAL = "local"
 CONSTS = {
-    "c1": np.array([1.0, 2.0], dtype=np.float32),
-    "c2": np.array([3.0, 4.0], dtype=np.float32),
+    "c1": np.array([[1.0, 2.0]], dtype=np.float32),
+    "c2": np.array([[3.0, 4.0]], dtype=np.float32),
     "s1": np.array(5.0, dtype=np.float32),
+    # per-channel parameters of the normalisation operators (rank 1)
+    "b1": np.array([1.5, 0.5], dtype=np.float32),
+    # two integer constants with identical bytes and shape, different element types
+    "k1": np.array([[-1, 1]], dtype=np.int8),
+    "k2": np.array([[255, 1]], dtype=np.uint8),
 }
+EXTRA_DOMAINS = {"ai.onnx.ml": 3}
+IN_SHAPE = [1, 2]     # every value is a rank-2 tensor [1, 2] (so that BatchNormalization applies) except the scalar s1,
+                      # the per-channel parameters b1 and the running statistics BatchNormalization returns (rank 1)
 
 
 def _tok_of_array(a: np.ndarray, dtype_name: str) -> str:
@@ -72,14 +80,57 @@ def _attrs(node, variant: int):
     out = {}
     if op == "Constant":
         arr = CONSTS[node["attr"][0][1]]
-        if variant % 2 == 0 or arr.ndim != 1:
+        if variant % 2 == 0 or arr.ndim != 1 or arr.dtype != np.float32:
             out["value"] = numpy_helper.from_array(arr, name="")
         else:
             out["value_floats"] = [float(x) for x in arr]
-    elif op == "Split":
-        out["axis"] = 0
-        out["num_outputs"] = 2
+    elif not node["fn"]:
+        if op == "Split":
+            out["num_outputs"] = 2
+        for name, val in node["attr"]:      # plain attributes of the other operators (integers or floats)
+            if isinstance(val, str) and not val.startswith("@"):
+                out[name] = int(val) if val.lstrip("-").isdigit() else float(val)
     return out
+
+
+def _split_op(op: str):
+    """'domain::Op' -> (domain, Op); operators of the default domain have no prefix."""
+    return tuple(op.split("::", 1)) if "::" in op else ("", op)
+
+
+def _dtype_of_ref(P, r) -> int:
+    """Element type of a referenced value: float everywhere except the typed constants."""
+    if r[0] == "out":
+        n = P["g"][r[1] - 1]["nodes"][r[2] - 1]
+        if n["op"] == "Constant":
+            return helper.np_dtype_to_tensor_dtype(CONSTS[n["attr"][0][1]].dtype)
+    return TensorProto.FLOAT
+
+
+def _rank_of_ref(P, r) -> int:
+    if r[0] == "out":
+        n = P["g"][r[1] - 1]["nodes"][r[2] - 1]
+        if n["op"] == "BatchNormalization" and r[3] > 1:
+            return 1
+    if r[0] == "init":
+        return CONSTS[P["g"][r[1] - 1]["inits"][r[2] - 1]].ndim
+    return 2
+
+
+def _vinfo(P, nm, r):
+    return helper.make_tensor_value_info(nm.ref(r), _dtype_of_ref(P, r), [None] * _rank_of_ref(P, r))
+
+
+def _domains_of(P, gid) -> set:
+    ds = set()
+    for n in P["g"][gid - 1]["nodes"]:
+        if n["fn"]:
+            ds.add(LOCAL)
+        elif "::" in n["op"]:
+            ds.add(n["op"].split("::", 1)[0])
+        for sg in n["subs"]:
+            ds |= _domains_of(P, sg)
+    return ds
 
 
 def _make_nodes(P, gid, nm: _Namer, variant: int, in_function: bool):
@@ -90,7 +141,7 @@ def _make_nodes(P, gid, nm: _Namer, variant: int, in_function: bool):
             ins.pop()
         outs = [nm.out(gid, i, o) for o in range(1, n["nout"] + 1)]
         kw = _attrs(n, variant + i)
-        domain = ""
+        domain, opname = _split_op(n["op"])
         if n["fn"]:
             domain = LOCAL
             for name, val in n["attr"]:
@@ -98,7 +149,7 @@ def _make_nodes(P, gid, nm: _Namer, variant: int, in_function: bool):
         if n["op"] == "If":
             kw["then_branch"] = _make_graph(P, n["subs"][0], nm, variant)
             kw["else_branch"] = _make_graph(P, n["subs"][1], nm, variant)
-        node = helper.make_node(n["op"], ins, outs, name=f"g{gid}_node{i}", domain=domain, **kw)
+        node = helper.make_node(opname, ins, outs, name=f"g{gid}_node{i}", domain=domain, **kw)
         for name, val in n["attr"]:
             if isinstance(val, str) and val.startswith("@") and not n["fn"]:
                 a = node.attribute.add()
@@ -114,7 +165,7 @@ def _make_graph(P, gid, nm: _Namer, variant: int):
     nodes = _make_nodes(P, gid, nm, variant, False)
     if nm.reverse_bodies:
         nodes = list(reversed(nodes))     # an unsorted nested body (input for the sorting pass only)
-    outs = [helper.make_tensor_value_info(nm.ref(r), TensorProto.FLOAT, [None]) for r in g["outs"]]
+    outs = [_vinfo(P, nm, r) for r in g["outs"]]
     inits = [numpy_helper.from_array(CONSTS[t], name=f"g{gid}_init{k}") for k, t in enumerate(g["inits"], start=1)]
     return helper.make_graph(nodes, f"graph{gid}", [], outs, initializer=inits)
 
@@ -124,12 +175,12 @@ def concretize(P: dict, variant: int = 0, reverse_bodies: bool = False) -> onnx.
     main = P["g"][0]
     nodes = _make_nodes(P, 1, nm, variant, False)
     inputs = [
-        helper.make_tensor_value_info("in1", TensorProto.FLOAT, [2]),
-        helper.make_tensor_value_info("in2", TensorProto.FLOAT, [2]),
+        helper.make_tensor_value_info("in1", TensorProto.FLOAT, IN_SHAPE),
+        helper.make_tensor_value_info("in2", TensorProto.FLOAT, IN_SHAPE),
         helper.make_tensor_value_info("cond", TensorProto.BOOL, []),
     ]
     # a graph output may alias an input/initializer directly (valid ONNX); duplicates are kept
-    outs = [helper.make_tensor_value_info(nm.ref(r), TensorProto.FLOAT, [None]) for r in main["outs"]]
+    outs = [_vinfo(P, nm, r) for r in main["outs"]]
     inits = [numpy_helper.from_array(CONSTS[t], name=f"g1_init{k}") for k, t in enumerate(main["inits"], start=1)]
     if variant % 4 == 2 and inits:
         # the first initializer is also a graph input: callers may override it (IR version >= 4)
@@ -141,11 +192,13 @@ def concretize(P: dict, variant: int = 0, reverse_bodies: bool = False) -> onnx.
         fnodes = _make_nodes(P, f["body"], nm, variant, True)
         fn = helper.make_function(
             LOCAL, f"F{fi}", [f"g{f['body']}_x{k}" for k in range(1, f["nin"] + 1)], [nm.ref(r) for r in body["outs"]],
-            fnodes, opset_imports=[helper.make_opsetid("", OPSET)],
+            fnodes, opset_imports=[helper.make_opsetid("", OPSET)] + [
+                helper.make_opsetid(d, 1 if d == LOCAL else EXTRA_DOMAINS[d]) for d in sorted(_domains_of(P, f["body"]))],
             attributes=sorted({v[1:] for n in body["nodes"] for _, v in n["attr"] if isinstance(v, str) and v.startswith("@")}),
         )
         funcs.append(fn)
-    model = helper.make_model(graph, opset_imports=[helper.make_opsetid("", OPSET), helper.make_opsetid(LOCAL, 1)],
+    model = helper.make_model(graph, opset_imports=[helper.make_opsetid("", OPSET), helper.make_opsetid(LOCAL, 1)] + [
+                                  helper.make_opsetid(d, EXTRA_DOMAINS[d]) for d in sorted(_domains_of(P, 1) - {LOCAL})],
                               functions=funcs, ir_version=10, producer_name="vf")
     return model
 
